@@ -128,7 +128,7 @@ func Alphabet(n *Node, extra []rune) []rune {
 
 // Inputs returns pattern-directed random strings (with near-miss mutations and random context).
 func Inputs(rng *rand.Rand, n *Node, count, maxLen int) [][]rune {
-	alpha := Alphabet(n, []rune{'a', 'b', '1', ' ', 'é', 0x301, 0x1F600})
+	alpha := Alphabet(n, []rune{'a', 'b', '1', ' ', 'é', 0x301, 0x1F600, 0x1F601})
 	var res [][]rune
 	res = append(res, []rune{})
 	for len(res) < count {
